@@ -348,9 +348,11 @@ def toolAdvD : ToolAdv TSt Nat Nat TRes where
     -- `G` / `J`: `tool_calls` is a generator object yielding no / one call (response ids from 3000)
     else if item = 'G' then (s', .ok (3000 + s.p, []))
     else if item = 'J' then (s', .ok (3000 + s.p, [s.p * 10]))
+    -- `F`: a list subclass whose `__bool__` answers False although it holds a call (response ids from 4000)
+    else if item = 'F' then (s', .ok (4000 + s.p, [s.p * 10]))
     else (s', .ok (1000 + s.p, []))
   -- a list (or None) is truthy iff it holds a call; a generator object is truthy whatever it yields
-  truthy resp calls := resp ≥ 3000 || !calls.isEmpty
+  truthy resp calls := if resp ≥ 4000 then false else resp ≥ 3000 || !calls.isEmpty
   complete s _ :=
     if raises (pick s.cs s.c 'r') then ({ s with c := s.c + 1 }, .raise)
     else ({ s with c := s.c + 1 }, .ok (2000 + s.c))
